@@ -14,7 +14,7 @@ RULE = ('term collections (current terms with pairwise disjoint primary/alternat
         'obsolete term; distinct by the collection.')
 
 THEOREM = 'Hpv.Props.C06.*'
-FORMS = ('tid', 'str:', 'str_', 'idf')
+FORMS = ('tid', 'str:', 'str_', 'idf', 'stid', 'idf-stid', 'user-tid', 'str-sub')
 
 
 def build_impl(terms, full):
@@ -29,7 +29,17 @@ def build_impl(terms, full):
         else:
             objs.append(MinimalTerm.create_minimal_term(t['id'], t['name'], t['alts'], t['obs']))
     g = gl.build_impl('indexed', [('HP:9999998', 'HP:9999999')])
-    onto = (create_ontology if full else create_minimal_ontology)(g, objs, 'v')
+    # the ontology is built from a list that the caller goes on using: it gets an obsolete term appended, its first element removed
+    # and is finally emptied - none of which is the ontology's business
+    given = list(objs)
+    onto = (create_ontology if full else create_minimal_ontology)(g, given, 'v')
+    extra = (Term.create_term(TermId.from_curie('HP:7777777'), name='late', alt_term_ids=[], is_obsolete=True, definition=None, comment=None,
+                              synonyms=None, xrefs=None) if full else
+             MinimalTerm.create_minimal_term(TermId.from_curie('HP:7777777'), 'late', [], True))
+    given.append(extra)
+    if len(given) > 1:
+        del given[0]
+    given.clear()
     return onto, objs
 
 
